@@ -391,6 +391,17 @@ func IPv6FindUpperProtocol(packet []byte) (nextHeader uint8, offset int, isFragm
 			return nextHeader, offset, isFragment, anyFragment, nil
 		}
 	}
+
+	// maxIPv6ExtHeaders headers were walked without reaching a terminal protocol inside the loop. If the chain still
+	// continues, refuse to classify instead of reporting an extension header as the upper layer protocol, and apply the
+	// same bounds check a terminal protocol gets inside the loop.
+	switch nextHeader {
+	case 0, 43, 44, 51, 60:
+		return nextHeader, offset, isFragment, anyFragment, ErrIPv6CouldNotFindPayload
+	}
+	if offset > len(packet) {
+		return nextHeader, offset, isFragment, anyFragment, ErrIPv6CouldNotFindPayload
+	}
 	return nextHeader, offset, isFragment, anyFragment, nil
 }
 
